@@ -355,6 +355,10 @@ func atomToGo(a Atom) reflect.Value {
 	}
 }
 
+// TolerateDuplicates makes FromNative accept slices that hold an element twice (only the
+// malformed-input property stores such values: the request itself listed it twice).
+var TolerateDuplicates = false
+
 // FromNative converts a native Go value of the column's type into canonical form
 // without using any libovsdb code.
 func FromNative(c Col, x interface{}) (Val, error) {
@@ -380,7 +384,7 @@ func FromNative(c Col, x interface{}) (Val, error) {
 		}
 		n := len(out.K)
 		out.normalize()
-		if len(out.K) != n {
+		if len(out.K) != n && !TolerateDuplicates {
 			return out, fmt.Errorf("column %s: native slice %v holds duplicates", c.Name, x)
 		}
 		return out, nil
